@@ -195,6 +195,8 @@ def plaintext(rng, kind):
     if kind == "empty":
         return ""
     if kind == "ascii":
+        if rng.random() < 0.12:
+            return rstr(rng, rng.randint(3, 6)) + ":" + rstr(rng, rng.randint(3, 6))     # looks like salt:digest, is a plaintext
         return rstr(rng, rng.randint(6, 14))
     if kind == "unicode":
         return rstr(rng, 3) + rstr(rng, rng.randint(3, 6), UNI) + rstr(rng, 3)
@@ -326,6 +328,13 @@ def matrix():
                 ("parse", ":"), ("parse", ""), ("parse", "é:QQ==")]
         ops += [("assign", "\ud800x"), ("load", "\udfffx", "tree"), ("challenge", "\ud800")]
         cases.append(finish({"alg": a, "req": False, "default": None, "ops": ops, "secrets": []}))
+        # hand-written plaintexts that look like the printed salt:digest form: they are plaintexts and must be hashed on load
+        ops = [("new",)]
+        colons = ["root:toor", "user:pass", ":", "QUJD:REVG", str_of(dv), "a:b:c"]
+        for ci, cp in enumerate(colons):
+            how = (["tree"] + FORMATS)[(a + ci) % 6]
+            ops += [("load", cp, how), ("challenge", cp), ("challenge", cp + "x"), ("python", cp), ("assign", cp), ("challenge", cp)]
+        cases.append(finish({"alg": a, "req": False, "default": colons[a % len(colons)], "ops": ops, "secrets": []}))
         for bad_default in (b"bytes-default", 5, ("a", "b"), ["x"]):
             cases.append(finish({"alg": a, "req": False, "default": bad_default, "ops": [("new",)], "secrets": []}))
         cases.append(finish({"alg": a, "req": True, "default": None,
